@@ -278,7 +278,14 @@ func runQ(p QPlan) (v hk.Verdict) {
 				continue
 			}
 
-			release(op.Worker, time.Duration(op.Ms+1)*time.Millisecond, true)
+			// requeue delays include "now" (0) and an instant already in the past (drawn 1 ms -> -1 ms): such an item
+			// is due at once and still has to come out again
+			after := time.Duration(op.Ms) * time.Millisecond
+			if op.Ms == 1 {
+				after = -time.Millisecond
+			}
+
+			release(op.Worker, after, true)
 		case "advance":
 			time.Sleep(time.Duration(op.Ms) * time.Millisecond)
 		}
